@@ -61,7 +61,14 @@ def run(tier, seed, rng):
     nops = 9
     jobs = []
     # (Dal / Dfx: same fields, names, sizes and options; only the hooks of the described field differ)
-    for pre, victim, after in (('', 'A', 'A'), ('', 'A', 'C'), ('C', 'A', 'A'), ('C', 'A', 'C'), ('A4', 'A', 'A4'), ('Ale', 'A', 'Ale'), ('Dal', 'Dfx', 'Dal'), ('', 'Dfx', 'Dal')):
+    import json as _json
+    def custom(body):
+        return 'custom:' + _json.dumps(dict(conf='{}', body=body), sort_keys=True)
+    # declarations whose generated sources are permutations of one another (two names exchanged): same length, same bytes, same sums
+    P1, P2 = custom("ab = Int(1)\n    ba = Int(2)"), custom("ba = Int(1)\n    ab = Int(2)")
+    Q1, Q2 = custom("r_121 = Int(1)\n    r_202 = Int(2)"), custom("r_202 = Int(1)\n    r_121 = Int(2)")
+    for pre, victim, after in (('', 'A', 'A'), ('', 'A', 'C'), ('C', 'A', 'A'), ('C', 'A', 'C'), ('A4', 'A', 'A4'), ('Ale', 'A', 'Ale'), ('Dal', 'Dfx', 'Dal'), ('', 'Dfx', 'Dal'),
+                               (P1, P2, P2), (P1, P2, P1), (Q1, Q2, Q2)):
         for k in range(1, nops + 1):
             jobs.append((pre, victim, k, None, after, k % 2 == 0))
     for n in ([0, 1, 50, 200, 700, 1300, 1400] if tier == 'quick' else list(range(0, 1440, 17))):
@@ -117,7 +124,7 @@ def run(tier, seed, rng):
         rng.shuffle(picks)
         picks = picks[:4000]
     for i, s in enumerate(picks):
-        va, vb = [('A', 'A'), ('A', 'C'), ('A', 'A4'), ('A', 'Ale'), ('Dal', 'Dfx')][i % 5]
+        va, vb = [('A', 'A'), ('A', 'C'), ('A', 'A4'), ('A', 'Ale'), ('Dal', 'Dfx'), (P1, P2), (Q2, Q1)][i % 7]
         sched.append((va, vb, s, i % 2 == 0, ['', 'C', 'A'][i % 3 if i % 5 else 0]))
     with ThreadPoolExecutor(max_workers=max(2, NPROC // 2)) as ex:
         sres = list(ex.map(scheduled, sched))
